@@ -30,11 +30,13 @@ use std::mem;
 #[cfg(not(similari_verif))]
 use std::sync::{Arc, Condvar, Mutex, RwLock, RwLockReadGuard, RwLockWriteGuard};
 #[cfg(similari_verif)]
-use similari_verif_rt::sync::{Arc, Condvar, Mutex, RwLock, RwLockReadGuard, RwLockWriteGuard};
+#[allow(unused_imports)]
+use similari_verif_rt::sync::*;
 #[cfg(not(similari_verif))]
 use std::thread::{spawn, JoinHandle};
 #[cfg(similari_verif)]
-use similari_verif_rt::thread::{spawn, JoinHandle};
+#[allow(unused_imports)]
+use similari_verif_rt::thread::*;
 
 type VotingSenderChannel = Sender<VotingCommands>;
 type VotingReceiverChannel = Receiver<VotingCommands>;
